@@ -294,6 +294,18 @@ def footprint (h : Heap) (op : Op) : List Nat :=
     op.listArgs.flatMap (fun r => match chainOf h r with | .ok as => as | .error _ => [])
   else []
 
+/-- The permission the correspondence check uses: may the list at `r` change when `op` runs?
+    `regs` assigns a region to every cell (cells entangled by earlier destructive operations share
+    a region; a cell without entry counts as entangled with everything).  `r` may change when one of
+    its cells lies in the region of a footprint cell. -/
+def mayChange (regs : List Nat) (h : Heap) (op : Op) (r : Ref) : Bool :=
+  let fpRegs := (footprint h op).filterMap (fun a => regs[a]?)
+  match chainOf h r with
+  | .ok as => as.any (fun a => match regs[a]? with
+      | some g => fpRegs.contains g
+      | none => true)
+  | .error _ => true
+
 /-- the value-level result of each operation, from the values of its list arguments -/
 def valueOf (op : Op) (xs ys : List Val) : Except Err (List Val) :=
   match op with
